@@ -303,7 +303,25 @@ struct Cfg {
   int stop = 0;       // pool: 0 none, 1 Stop, 2 HardStop, 3 SoftStop
 };
 
+// once a scenario has produced this many failing executions the rest of its exploration is skipped (the verdict is
+// known and the first failures are the replays)
+int gFailedExecutions = 0;
+const int kMaxFailedExecutions = 50;
+
+void RunScenarioBody(Cfg cfg);
+
 void RunScenario(Cfg cfg) {
+  if (gFailedExecutions >= kMaxFailedExecutions) {
+    vrt::Fail("skipped: this scenario already failed " + std::to_string(kMaxFailedExecutions) + " times");
+    return;
+  }
+  RunScenarioBody(cfg);
+  if (!vrt::g.failures.empty()) {
+    ++gFailedExecutions;
+  }
+}
+
+void RunScenarioBody(Cfg cfg) {
   Ctx c;
   vrt::NameLoc(&c.tick, "t");
   ManualExec man;
